@@ -301,12 +301,17 @@ impl Circuit {
                     expected_parties,
                 ));
             }
-            let input_wires: usize = input_gates.iter().sum();
+            let Some(input_wires) = input_gates
+                .iter()
+                .try_fold(0usize, |sum, n| sum.checked_add(*n))
+            else {
+                return Err(FromBristolError::MalformedLine(line_str));
+            };
             (input_gates, input_wires)
         };
 
         // Parse output line
-        let (mut output_gates, num_output_wires) = {
+        let num_output_wires = {
             let (parts, line_str) = parse_line(lines.next())?;
             if parts.len() < 2 {
                 return Err(FromBristolError::MalformedLine(line_str));
@@ -319,30 +324,46 @@ impl Circuit {
                     num_outputs,
                 ));
             }
-            let num_output_wires = gates_per_output.iter().sum::<usize>();
-            (vec![0; num_output_wires], num_output_wires)
+            let Some(num_output_wires) = gates_per_output
+                .iter()
+                .try_fold(0usize, |sum, n| sum.checked_add(*n))
+            else {
+                return Err(FromBristolError::MalformedLine(line_str));
+            };
+            num_output_wires
         };
 
-        // Create the wires map to map the wires in the Bristol format to the wires in the Garble format.
-        let mut wires_map = vec![0; wires_num];
-        for (i, wire) in wires_map.iter_mut().take(input_wires_num).enumerate() {
-            *wire = i;
+        // The header is not trusted: nothing is allocated in proportion to a number that the rest
+        // of the file does not back up.
+        let gate_lines: Vec<String> = lines
+            .filter(|line_str| !line_str.trim().is_empty())
+            .collect();
+        if num_output_wires > wires_num {
+            return Err(FromBristolError::OutputCountMismatch(
+                num_output_wires,
+                wires_num,
+            ));
         }
+        if input_wires_num > wires_num {
+            return Err(FromBristolError::InvalidWireIndex(input_wires_num));
+        }
+        let mut output_gates_map: HashMap<usize, usize> = HashMap::new();
+
+        // Maps the wires in the Bristol format to the wires in the Garble format (input wires map
+        // to themselves, wires that are never assigned map to wire 0).
+        let mut gate_wires_map: HashMap<usize, usize> = HashMap::with_capacity(gate_lines.len());
         let mut next_wire = input_wires_num;
 
         // Parse gates
         let mut gates = Vec::new();
-        for line_str in lines {
+        for line_str in gate_lines {
             let parts: Vec<&str> = line_str.split_whitespace().collect();
-            if parts.is_empty() {
-                continue;
-            }
             if parts.len() < 5 {
                 return Err(FromBristolError::MalformedLine(line_str));
             }
             let num_inputs: usize = parts[0].parse()?;
             let num_outputs: usize = parts[1].parse()?;
-            if num_outputs != 1 || parts.len() != num_inputs + 4 {
+            if num_outputs != 1 || num_inputs.checked_add(4) != Some(parts.len()) {
                 return Err(FromBristolError::MalformedLine(line_str));
             }
             let input_wires: Vec<usize> = parts[2..(2 + num_inputs)]
@@ -363,11 +384,15 @@ impl Circuit {
             // Check if the output wire is an output gate
 
             if output_wire >= wires_num - num_output_wires {
-                output_gates[output_wire - (wires_num - num_output_wires)] = next_wire;
+                output_gates_map.insert(output_wire - (wires_num - num_output_wires), next_wire);
             }
 
-            wires_map[output_wire] = next_wire;
+            gate_wires_map.insert(output_wire, next_wire);
             next_wire += 1;
+            let wires_map = |w: usize| -> usize {
+                let unassigned = if w < input_wires_num { w } else { 0 };
+                gate_wires_map.get(&w).copied().unwrap_or(unassigned)
+            };
 
             let gate = match *gate_type {
                 "XOR" | "AND" => {
@@ -375,16 +400,16 @@ impl Circuit {
                         return Err(FromBristolError::MalformedLine(line_str));
                     }
                     if *gate_type == "XOR" {
-                        Gate::Xor(wires_map[input_wires[0]], wires_map[input_wires[1]])
+                        Gate::Xor(wires_map(input_wires[0]), wires_map(input_wires[1]))
                     } else {
-                        Gate::And(wires_map[input_wires[0]], wires_map[input_wires[1]])
+                        Gate::And(wires_map(input_wires[0]), wires_map(input_wires[1]))
                     }
                 }
                 "INV" => {
                     if input_wires.len() != 1 {
                         return Err(FromBristolError::MalformedLine(line_str));
                     }
-                    Gate::Not(wires_map[input_wires[0]])
+                    Gate::Not(wires_map(input_wires[0]))
                 }
                 _ => {
                     return Err(FromBristolError::UnknownGate(gate_type.to_string()));
@@ -393,6 +418,16 @@ impl Circuit {
             gates.push(gate);
         }
 
+        // every output wire is the result of a gate:
+        if num_output_wires > gates.len() {
+            return Err(FromBristolError::OutputCountMismatch(
+                num_output_wires,
+                gates.len(),
+            ));
+        }
+        let output_gates = (0..num_output_wires)
+            .map(|i| output_gates_map.get(&i).copied().unwrap_or(0))
+            .collect();
         Ok(Circuit {
             input_gates,
             gates,
